@@ -13,14 +13,14 @@ checks = {
  "C06": ("exploration", EX + " (monitor on the checker's own judgements + R-mode)", "Same program space: every judgement the real checker enters while accepting a program is inspected for the declaration of independence; every shift of every accepted type is checked against the reference preorder."),
  "C07": ("exploration", EX + " (reference typechecker R-tc, both directions)", "Same program space: verdict of the real typechecker = verdict of the independent reference typechecker wherever the latter is definite."),
  "C08": ("exploration", EX + " (reference bisimulation R-eq; equivalence laws)", "All well-formed environments of the enumerated space x all candidate pairs/triples: EqualType returns within fuel and equals the reference greatest-fixpoint bisimulation; reflexive, symmetric, transitive."),
- "C09": ("model_checking", "stateless model checking: all schedules (S-full) of Typecheck's caller/worker tasks under the controlled scheduler, fuel-bounded", "All schedules of Typecheck's two goroutines on every program/mutant/grammatical token string: always an answer, no panic before or after the return, nil implies no internal panic."),
- "C10": ("exploration", EX + " (reference well-formedness R-wf)", "All environments of <= 2/3 definitions over the enumerated type space and all annotation types in signature/process/cut positions: accepted iff well-formed; Unfold of accepted names terminates."),
+ "C09": ("model_checking", "stateless model checking: all schedules (S-full) of Typecheck's caller/worker tasks under the controlled scheduler, fuel-bounded", "All schedules of Typecheck's two goroutines on every program/mutant/grammatical token string and on 14 scaling families at growing sizes: always an answer within the fuel, no panic before or after the return, nil implies no internal panic."),
+ "C10": ("exploration", EX + " (reference well-formedness R-wf)", "All environments of <= 2/3 definitions over the enumerated type space and all annotation types in signature/process/cut positions (alone and next to a well-formed sibling annotation): accepted iff well-formed; Unfold of accepted names terminates."),
  "C11": ("exploration", "bounded-exhaustive enumeration of character strings, token strings and corpus edits; deterministic fuel as the promptness measure", "Every enumerated text makes ParseString return (no panic, no blocked error channel) within a fuel bound linear in its length, with a program or a non-empty error."),
  "C12": ("exploration", EX + " (independent tokenizer + Earley recognizer R-gram)", "Every enumerated text the real parser accepts is a sentence of the reference grammar with the same declarations; every illegal-character insertion is rejected."),
- "C13": ("exploration", "separate free-running pass of the same driver programs in an uninstrumented -race build (the cooperative scheduler hides races); programs x modes x monitor x GOMAXPROCS enumerated exhaustively, schedules not", "Go race detector over every driver program in all configurations, including the post-run API calls; complements the model-checking passes, whose atomic-block assumption it discharges."),
+ "C13": ("exploration", "separate free-running pass of the same driver programs in an uninstrumented -race build (the cooperative scheduler hides races); programs x modes x monitor x GOMAXPROCS enumerated exhaustively (plus every program together with its corpus successor driven concurrently by two goroutines in one process), schedules not", "Go race detector over every driver program in all configurations, including the post-run API calls; complements the model-checking passes, whose atomic-block assumption it discharges."),
  "C18": ("exploration", "complete enumeration of the flag product (240 vectors) x file classes on the real binary", "Every flag vector on every file class: exit status, absence of program output when nothing may run, one diagnostic, no panic trace."),
  "C19": ("model_checking", MC + "; operation-sequence BFS (histories) with residual tasks kept schedulable; differential oracle against a fresh process", "All histories up to the stated length inside one scheduler instance, all schedules with delay <= 1: each run's verdict/prints/panics equal those of the program alone in a fresh process; leftovers never print during later runs."),
- "C14": ("model_checking", MC + "; differential oracle over all admissible renamings/permutations (E-ren)", "Every admissible renaming and declaration permutation of every driver program: same verdict; same outcomes (printed multiset, completion) on the explored schedules of both polarized modes."),
+ "C14": ("model_checking", MC + "; differential oracle over all admissible renamings/permutations (E-ren)", "Every admissible renaming and declaration permutation of every driver program, and every fresh alpha-renaming of every collision-seeking binder mutant: same verdict; same outcomes (printed multiset, completion) on the explored schedules of both polarized modes."),
  "C15": ("exploration", "bounded-exhaustive enumeration of types; print/parse round trip compared structurally", "Every well-formed type of the enumerated space, under every head mode: parse(print(T)) is structurally T (modes and branch order included); no two different types print identically."),
  "C16": ("exploration", EX + " (reference mode inference R-infer; permutation/annotation invariance)", "Every accepted environment of the enumerated space: all nodes carry one of the four modes, equal to the reference inference; verdict and modes invariant under all declaration permutations and explicit annotation."),
  "C17": ("exploration", "complete enumeration of the finite mode space against a hand-written table", "All 4 modes, 16 pairs and 64 triples, all documented spellings: order laws, converse law, monotone structural rules. The space is finite and enumerated completely."),
